@@ -306,3 +306,20 @@ def sany(module_path: str) -> tuple[bool, str]:
     out = p.stdout + p.stderr
     bad = ("*** Errors" in out) or ("Fatal" in out) or ("Could not" in out) or p.returncode != 0
     return (not bad), out
+
+
+def apalache(spec: str, init: str, inv: str, length: int, timeout=300) -> dict:
+    """Bounded / inductive check with Apalache (SMT): returns {"outcome": "NoError" | "Error" | "unavailable", ...}."""
+    tmp = tempfile.mkdtemp(prefix="vf-apa-")
+    t0 = time.time()
+    cmd = ["apalache-mc", "check", f"--init={init}", f"--inv={inv}", f"--length={length}", f"--out-dir={tmp}", spec + ".tla"]
+    try:
+        p = subprocess.run(cmd, cwd=SPEC_DIR, capture_output=True, text=True, timeout=timeout)
+        out = p.stdout + p.stderr
+        m = re.search(r"The outcome is: (\w+)", out)
+        outcome = m.group(1) if m else "unavailable"
+    except (subprocess.TimeoutExpired, FileNotFoundError) as ex:
+        outcome, out = "unavailable", str(ex)
+    finally:
+        shutil.rmtree(tmp, ignore_errors=True)
+    return {"cmd": " ".join(cmd[:6] + [cmd[-1]]), "outcome": outcome, "wall_s": round(time.time() - t0, 1), "tail": out[-400:] if outcome == "unavailable" else ""}
